@@ -79,6 +79,9 @@ struct Table {
             Bytes b = (k == 1 || rng.below(4) == 0) ? fresh((Cls)c, rng) : near((Cls)c, v[c][1 + rng.below((uint32_t)(k - 1))], rng);
             bool dup = false; for (int j = 1; j < k; ++j) if (v[c][j] == b) dup = true;
             if (!dup) { v[c][k] = b; break; } }
+        // in one table of six one of the four IPv4 values is 0.0.0.0 - the address of a host that has none yet (a request whose source
+        // was left unset): between unicast peers it is matched like any other address (only broadcast destinations are exempt)
+        if (rng.below(6) == 0) v[IP4][1 + rng.below(4)] = Bytes(4, 0);
     }
     const Bytes& get(Cls c, long k) const { return v[c][k >= 1 && k <= 4 ? k : 1]; }
     uint16_t u16(Cls c, long k) const { const Bytes& b = get(c, k); return (uint16_t)((b[0] << 8) | b[1]); }
@@ -239,6 +242,10 @@ static void specials() {
     { ICMP* i = new ICMP(ICMP::DEST_UNREACHABLE); OBJS["ICMP#dest_unreachable"] = i; }
     { ICMPv6* i = new ICMPv6(ICMPv6::ROUTER_SOLICIT); OBJS["ICMPv6#router_solicit"] = i; }
     { ICMPv6* i = new ICMPv6(ICMPv6::NEIGHBOUR_SOLICIT); OBJS["ICMPv6#neighbour_solicit"] = i; }
+    { ICMPv6 ns(ICMPv6::NEIGHBOUR_SOLICIT); ns.target_addr("fe80::1"); OBJS["EthernetII#ip6_icmpv6_neighbour_solicit"] = (EthernetII() / IPv6("ff02::1:ff00:1", "fe80::2") / ns).clone(); }
+    { ICMPv6 rs(ICMPv6::ROUTER_SOLICIT); OBJS["IPv6#icmpv6_router_solicit"] = (IPv6("ff02::2", "fe80::2") / rs).clone(); }
+    { ICMPv6* i = new ICMPv6(ICMPv6::MGM_QUERY); OBJS["ICMPv6#mld_query"] = i; }
+    { ICMP* i = new ICMP(ICMP::INFO_REQUEST); OBJS["ICMP#info_request"] = i; }
     { DHCPv6* d = new DHCPv6(); d->msg_type(DHCPv6::RELAY_FORWARD); OBJS["DHCPv6#relay_forward"] = d; }
     { DHCPv6* d = new DHCPv6(); d->msg_type(DHCPv6::SOLICIT); d->transaction_id(0xffffff); OBJS["DHCPv6#solicit_xid_ones"] = d; }
     { BootP* b = new BootP(); b->xid(0xffffffff); OBJS["BootP#xid_ones"] = b; }
@@ -277,6 +284,13 @@ static void safe_case(const vh::Json& sc, vh::Out& out, const vh::Args& args) {
     Bytes buf(128, 0);
     if (src == "reply" || src == "mutated") { for (size_t i = 0; i < 128 && i < reply.size(); ++i) buf[i] = reply[i];
         if (src == "mutated") { int k = rng.range(1, 3); for (int i = 0; i < k; ++i) buf[rng.below(reply.empty() ? 128 : (uint32_t)std::min<size_t>(128, reply.size()))] = (uint8_t)rng.below(256); } }
+    // the object's own wire image with the leading (type / opcode) octet of its innermost layer changed to a neighbouring value or to 0:
+    // what a response to it carries there (ICMP echo 8 -> 0, timestamp 13 -> 14, ICMPv6 solicitations 133 -> 134 and 135 -> 136,
+    // BOOTP / ARP / DHCPv6 request -> reply), so that the branches behind the type test see every truncation
+    else if (src == "typeup" || src == "typedown" || src == "type0") {
+        for (size_t i = 0; i < 128 && i < reply.size(); ++i) buf[i] = reply[i];
+        size_t off = 0; for (PDU* q = obj; q && q->inner_pdu(); q = q->inner_pdu()) off += q->header_size();
+        if (off < 128) buf[off] = src == "type0" ? 0 : (uint8_t)(buf[off] + (src == "typeup" ? 1 : -1)); }
     else if (src == "random") buf = rnd(rng, 128);
     else if (src == "ones") buf.assign(128, 0xff);
     const std::string cls = label.substr(0, label.find_first_of("#:"));
